@@ -13,6 +13,15 @@ THEOREMS = {
     "C14": ["C14_no_deadlock", "C14_terminates", "C14_one_per_release", "C14_spurious", "C14_independent"],
 }
 
+# timed layer (audit task A7): Properties/C13T.v, C14T.v - the same properties
+# with admissibility derived from a time proviso (Model/MutexTimed.v)
+THEOREMS_T = {
+    "C13": ("C13T", ["C13T_step_erases", "C13T_run_erases", "C13T_admissible", "C13T_mutual_exclusion", "C13T_count",
+                     "C13T_mutual_exclusion_short_holds", "C13T_mutual_exclusion_app", "C13T_lastaccess_covers_hold", "C13T_purge_keeps_locked",
+                     "C13T_long_hold_refuted", "C13T_long_waiter_safe", "C13T_source_pinned", "C13T_time_uses_pinned"]),
+    "C14": ("C14T", ["C14T_no_deadlock", "C14T_timed_progress", "C14T_terminates", "C14T_one_per_release"]),
+}
+
 ERRS = {1: "a step the replay needs is not enabled in the model", 2: "run leaves the admissible runs (generator error)",
         3: "lock table differs", 4: "holders differ", 5: "waiters differ", 6: "purge removed/kept entries against the rule",
         7: "model not quiescent where the real system was", 8: "observation breaks the quiescent invariant",
@@ -22,11 +31,12 @@ ASSUMPTIONS = [
     "granularity: every transition of Model/Mutex.v contains exactly one synchronising action (a channel rendezvous or a critical section of itemsMutex) and the counters are touched by the manager goroutine only, so every Go execution is a linearisation of model transitions (argued, not proved)",
     "Go scheduler fairness: a runnable goroutine eventually runs (needed to turn 'some admissible step is enabled' + the decreasing measure into 'every Lock returns')",
     "unbuffered-channel and sync.Mutex semantics of the Go runtime as specified",
-    "property provisos, explicit in the theorems (adm / adm_run): a purge treats an entry as stale only if its lock count is 0 (holds shorter than mutexStaleMutexes); an Unlock of a key the caller does not hold is taken only while that key is not held",
+    "property provisos, explicit in the theorems (adm / adm_run): a purge treats an entry as stale only if its lock count is 0; an Unlock of a key the caller does not hold is taken only while that key is not held. The first is derived, not assumed, in the timed layer (Properties/C13T.v, C14T.v over Model/MutexTimed.v: clock, lastAccess written by every getItem, staleness computed): its hypothesis tadm_run is about time only - at the instant of every purge loop every hold is at most mutexStaleMutexes old, counted from the latest getItem of the key at or before the grant (the grant itself does not write lastAccess, so an application must stay below the timeout by the scheduling latency between that getItem and the return of Lock); waiters may queue for any length of time",
     "the number of purge requests in a run is finite (initial `purges`, plus one per oversize creation); the real ticker is unbounded, so termination is per finite stretch",
 ]
 
 TRUSTED = [
+    "translator/mutex_time.go: uses of lastAccess, of the clock and of getItem in the package, compared in Coq with the forms Model/MutexTimed.v was written against (C13T_time_uses_pinned)",
     "translator/mutex_tbl.go: normalised statement texts of newMutexes/getItem/Lock/Unlock compared in Coq with the forms Model/Mutex.v was written against (C13_source_pinned)",
     "harness/mutex_test.go: worker goroutines, owner-word and quiescence oracles, canonical command order handed to the model",
     "checks/mutex_common.py: classification of harness findings",
@@ -221,17 +231,35 @@ def run_property(chk, prop, want, other):
     """Common driver. `want`: prefixes of harness findings that are violations
     of this property; `other`: prefixes that belong to the sibling property."""
     ok, out = vlib.standard_proof_stage(chk, prop, THEOREMS[prop])
-    chk.coverage["checker_cmd"] = ("make -j16 Properties/%s.vo (coqc 8.16.1, after regenerating Gen/MutexTbl.v from mutexes.go); "
-                                   "coqc on generated cases files (Eval vm_compute in mutex_codes cases)" % prop) + \
-        ("; coqchk -silent -o -Q . Sessions Sessions.Properties.%s" % prop if chk.tier == "thorough" else "")
+    tmod, tnames = THEOREMS_T[prop]
+    if os.path.exists(os.path.join(vlib.COQ, "Properties", tmod + ".v")):
+        first = dict(chk.coverage)
+        tok, tout = vlib.standard_proof_stage(chk, tmod, tnames)
+        for key in ("assumptions_printed", "coq_files_in_closure"):
+            merged = first.get(key)
+            if isinstance(merged, dict):
+                merged = dict(merged, **(chk.coverage.get(key) or {}))
+            elif isinstance(merged, list):
+                merged = sorted(set(merged) | set(chk.coverage.get(key) or []))
+            chk.coverage[key] = merged
+        if first.get("coq_build_log_tail"):
+            chk.coverage["coq_build_log_tail"] = first["coq_build_log_tail"]
+        ok, out = ok and tok, out + tout
+    else:
+        chk.oblige("Properties/%s.v (timed layer) present" % tmod, False)
+        ok = False
+    chk.coverage["checker_cmd"] = ("make -j16 Properties/%s.vo Properties/%s.vo (coqc 8.16.1, after regenerating Gen/MutexTbl.v and Gen/MutexTime.v from mutexes.go); "
+                                   "coqc on generated cases files (Eval vm_compute in mutex_codes cases)" % (prop, tmod)) + \
+        ("; coqchk -silent -o -Q . Sessions Sessions.Properties.%s Sessions.Properties.%s" % (prop, tmod) if chk.tier == "thorough" else "")
     if ok and chk.tier == "thorough":
         with vlib.lock("coq"):
             try:
-                rc, cout = vlib.sh(["timeout", "900", "coqchk", "-silent", "-o", "-Q", ".", "Sessions", "Sessions.Properties." + prop], cwd=vlib.COQ)
+                rc, cout = vlib.sh(["timeout", "900", "coqchk", "-silent", "-o", "-Q", ".", "Sessions",
+                                    "Sessions.Properties." + prop, "Sessions.Properties." + tmod], cwd=vlib.COQ)
             except Exception as e:  # noqa: BLE001
                 rc, cout = 1, str(e)
         good = rc == 0 and "* Axioms: <none>" in cout
-        chk.oblige("coqchk re-checks the .vo closure of Properties/%s.v: no axioms" % prop, good)
+        chk.oblige("coqchk re-checks the .vo closure of Properties/%s.v and %s.v: no axioms" % (prop, tmod), good)
         chk.coverage["coqchk_tail"] = cout[-600:]
         ok = ok and good
     binary, blog = vlib.build_harness()
@@ -282,7 +310,7 @@ def run_property(chk, prop, want, other):
         return finish(chk)
     broken = []
     if not ok:
-        broken.append("theorems of Properties/%s.v (or Gen/MutexTbl.v obligations)" % prop)
+        broken.append("theorems of Properties/%s.v or %s.v (or the pins over Gen/MutexTbl.v, Gen/MutexTime.v)" % (prop, tmod))
     if b["codes_nonzero"]:
         broken.append("correspondence: model replay differs from the real lock manager")
     if b["crashes"]:
